@@ -154,6 +154,18 @@ CHECKS['C14'] = dict(
     note='Trusted: SX engine incl. placeholder strings (witness replay on the builder runs), z3 (window boundaries are linear integer '
          'arithmetic: decided, not sampled), signature oracle, clock stub. Counterexamples are realised with real keys and signatures.',
     technique=TECH)
+CHECKS['C15'] = dict(
+    text='Each of the four HTLC locks (both layouts, SHA-256 and SHAKE-256) and the PTLC lock is built by the real builder with symbolic keys, '
+         'digest, timeout and build-time clock, and run from an arbitrary witness state (symbolic signature, preimage / key / selector of several '
+         'lengths) with symbolic t and run-time clock: the verdict equals the reference predicate "digest matches and receiver signed, or digest '
+         'differs and t >= build time + timeout within slack and refund key signed" (for the second layout: and the supplied key is the committed '
+         'one). Builder witnesses (claim and refund, five lock kinds, symbolic seeds) succeed exactly when their path condition holds; the '
+         'deadline arithmetic is linear integer arithmetic, decided for all values.',
+    design_ref='DESIGN.md section 4 C15',
+    note='Trusted: SX engine incl. placeholder strings (witness replay on builder runs), z3, hash stubs with collision freedom, signature oracle, '
+         'two-phase clock stub. OP_EQUAL is modelled with byte-xor as an uninterpreted function plus the lemma xor(a,b)=0 <=> a=b. The tweaked-PTLC '
+         'signature identity (sign_with_scalar on x+t) belongs to the group-algebra checks of C17.',
+    technique=TECH)
 NOT_APPLICABLE = {}
 NOTES = ('Exit codes of every check: 0 held on everything explored; 1 + VIOLATION line for a counterexample that was '
          'replayed on the real package and is not a listed known finding; 2 harness error / unsupported construct / '
